@@ -34,7 +34,9 @@ def guess_output_format(fileorname, fileformat_request):
             else:
                 name = fileorname.name
             ext = os.path.splitext(name)[-1][1:]
-        except (AttributeError, ValueError, IndexError):
+        except (AttributeError, ValueError, IndexError, TypeError):
+            # no name, or a name which is not a string (e.g. the file
+            # descriptor of tempfile.TemporaryFile): default format
             pass
 
         if ext == 'tex':
